@@ -380,11 +380,13 @@ def h_rectify(c):
   for a, b, u in zip(out_beats, beats, usable):
     if bool(u):
       k = [i for i, p in enumerate(uniq) if bool(c.eq(p, b))][0]
-      c.check(c.eq(a.time, k * spb), 'beat lands on k*60/bpm')
+      c.check(c.approx(a.time, k * spb, 1e-9), 'beat lands on k*60/bpm')
   if len(rect.notes) == 1:
     n = notes[0]
-    c.check(c.And(c.eq(rect.notes[0].start_time, g(n['start_time'])),
-                  c.eq(rect.notes[0].end_time, g(n['end_time']))),
+    # (up to 1e-9: the code multiplies k * 60. / bpm in doubles, which is not
+    # the exact rational for tempi such as 97)
+    c.check(c.And(c.approx(rect.notes[0].start_time, g(n['start_time']), 1e-9),
+                  c.approx(rect.notes[0].end_time, g(n['end_time']), 1e-9)),
             'note mapped by the beat interpolation')
   else:
     c.check(bool(c.eq(g(notes[0]['start_time']), g(notes[0]['end_time']))),
